@@ -133,3 +133,111 @@ contract("asn1:_read_asn1_header",
                         entry_hints=["lemma_pow256_pos(length_octets - 1)"],
                         exit_hints=["pow256(0)", "drop(view, 1) == drop(data, id_len(data) + 1)"])},
          exit_hints=[])
+
+# ------------------------------------------------------------------------------------------------ tag validation and primitive readers
+# `header`, when supplied, is the result of peek_header on the same data (documented use); H_* below name the header
+# fields actually used: the supplied header's, else the parsed one.
+_HDR_OK = "implies(header is not None, header.tag_length >= 0 and header.length >= 0 and header.tag_length <= len(data))"
+
+contract("asn1:_validate_tag",
+         params={"data": "memoryview", "hint": "str"},
+         requires=[_HDR_OK],
+         ensures=["implies(header is None, tlv_complete(data) and result[1] == hdr_len(data) + val_len(data) and result[0] == content_of(data))",
+                  "implies(header is None, expected_tag.tag_class == id_class(data) and expected_tag.tag_number == id_number(data) and expected_tag.is_constructed == id_constructed(data))",
+                  "implies(header is not None, result[1] == header.tag_length + header.length and result[0] == take(drop(data, header.tag_length), header.length) and header.tag == expected_tag)",
+                  "implies(header is not None, len(data) >= header.tag_length + header.length)",
+                  "len(result[0]) == result[1] - (hdr_len(data) if header is None else header.tag_length)",
+                  "result[1] <= len(data)", "result[1] >= 0"],
+         raises={"NotEnougData": "(header is None and not tlv_complete(data)) or (header is not None and len(data) < header.tag_length + header.length)",
+                 "ValueError": "(header is None and id_complete(data)) or (header is not None and header.tag != expected_tag)"})
+
+_READ_COMMON = dict(
+    params={"data": "memoryview", "hint": "str"},
+    requires=[_HDR_OK],
+    raises={"NotEnougData": "(header is None and not tlv_complete(data)) or (header is not None and len(data) < header.tag_length + header.length)",
+            "ValueError": True})
+# T_* : the tag that must match; C: the content octets; N: octets consumed
+_CONTENT = "(content_of(data) if header is None else take(drop(data, header.tag_length), header.length))"
+_CONSUMED = "(hdr_len(data) + val_len(data) if header is None else header.tag_length + header.length)"
+
+
+def _tagmatch(default_num, default_cons):
+    # effective expected tag: explicit tag, else the supplied header's own tag (any tag accepted), else the universal default
+    return ("implies(header is None, tlv_complete(data) and (id_class(data) == (tag.tag_class if tag is not None else 0)) and "
+            "(id_number(data) == (tag.tag_number if tag is not None else %d)) and "
+            "(id_constructed(data) == (tag.is_constructed if tag is not None else %s)))" % (default_num, default_cons))
+
+
+contract("asn1:_read_asn1_octet_string", **_READ_COMMON,
+         ensures=["result[0] == " + _CONTENT, "result[1] == " + _CONSUMED, "result[1] <= len(data)", "result[1] >= 0",
+                  _tagmatch(4, "False"),
+                  "implies(header is not None and tag is not None, header.tag == tag)"])
+contract("asn1:_read_asn1_sequence", **_READ_COMMON,
+         ensures=["result[0] == " + _CONTENT, "result[1] == " + _CONSUMED, "result[1] <= len(data)", "result[1] >= 0",
+                  _tagmatch(16, "True"),
+                  "implies(header is not None and tag is not None, header.tag == tag)"])
+contract("asn1:_read_asn1_set", **_READ_COMMON,
+         ensures=["result[0] == " + _CONTENT, "result[1] == " + _CONSUMED, "result[1] <= len(data)", "result[1] >= 0",
+                  _tagmatch(17, "True"),
+                  "implies(header is not None and tag is not None, header.tag == tag)"])
+contract("asn1:_read_asn1_boolean", **_READ_COMMON,
+         ensures=["result[0] == (not (len(%s) == 1 and %s[0] == 0))" % (_CONTENT, _CONTENT),
+                  "result[1] == " + _CONSUMED, "result[1] <= len(data)", "result[1] >= 0",
+                  _tagmatch(1, "False"),
+                  "implies(header is not None and tag is not None, header.tag == tag)"])
+
+# ------------------------------------------------------------------------------------------------ TLV writer
+contract("asn1:_pack_asn1",
+         params={"tag_class": "int", "tag_number": "int", "data": "bytes"},
+         requires=["tag_number >= 0", "len(data) < 9223372036854775808"],
+         ensures=["tlv_of(result, tag_class, constructed, tag_number, data)"],
+         raises={"ValueError": "tag_class < 0 or tag_class > 3"},
+         bind_calls={"_pack_asn1_octet_number": "tagoct"},
+         loops={0: dict(invariant=["length >= 0",
+                                   "len(data) == length * pow256(len(length_octets)) + le(length_octets, len(length_octets))",
+                                   "pow256(len(length_octets)) >= 1",
+                                   "len(length_octets) <= 8",
+                                   "length < pow256(8 - len(length_octets))",
+                                   "implies(len(length_octets) >= 1, length * 256 + length_octets[len(length_octets) - 1] >= 1)",
+                                   "implies(len(length_octets) == 0, length == len(data))"],
+                        entry_hints=["pow256(8)", "pow256(7)", "pow256(4)", "pow256(0)"],
+                        snapshot_each={"prev_octets": "length_octets"},
+                        body_hints=["le(length_octets, len(length_octets))", "pow256(len(length_octets))",
+                                    "pow256(8 - len(prev_octets))",
+                                    "lemma_le_frame(prev_octets, length_octets, len(length_octets) - 1)"],
+                        exit_snapshot={"digits": "length_octets"},
+                        decreases="length")},
+         exit_hints=["using tagoct: drop(result, 1) == cat(tagoct, drop(result, 1 + len(tagoct)))",
+                     "using tagoct: lemma_b128end_find(tagoct, 0, len(tagoct) - 1)",
+                     "using tagoct: lemma_b128end_prefix(tagoct, drop(result, 1 + len(tagoct)), 0)",
+                     "using tagoct: lemma_b128_prefix(tagoct, drop(result, 1 + len(tagoct)), 0, len(tagoct))",
+                     "using digits: lemma_be_le_reverse(digits, length_octets, len(digits))",
+                     "using digits: pow256(0)", "using digits: le(digits, 0)",
+                     "using digits: drop(result, len(b_asn1_data) - len(length_octets)) == cat(length_octets, data)",
+                     "using digits: lemma_be_prefix(length_octets, data, 0, len(length_octets))",
+                     "drop(result, len(b_asn1_data)) == data"])
+
+# ------------------------------------------------------------------------------------------------ INTEGER / ENUMERATED reader
+contract("asn1:_read_asn1_integer",
+         params={"data": "memoryview", "hint": "str"},
+         requires=[_HDR_OK],
+         ensures=["len(%s) >= 1" % _CONTENT,
+                  "result[0] == tc(%s)" % _CONTENT,
+                  "result[1] == " + _CONSUMED, "result[1] <= len(data)", "result[1] >= 0",
+                  _tagmatch(2, "False"),
+                  "implies(header is not None and tag is not None, header.tag == tag)"],
+         raises={"NotEnougData": "(header is None and not tlv_complete(data)) or (header is not None and len(data) < header.tag_length + header.length)",
+                 "ValueError": True},
+         bind_calls={"_validate_tag": "vt"},
+         loops={0: dict(invariant=["len(b_int) == len(vt[0])",
+                                   "forall(q, 0, _i0, b_int[q] == 255 - vt[0][q])",
+                                   "forall(q, _i0, len(b_int), b_int[q] == vt[0][q])"],
+                        exit_snapshot={"comp": "b_int"}),
+                1: dict(invariant=["len(b_int) == len(comp)",
+                                   "forall(q, 0, len(b_int) - _i1, b_int[q] == comp[q])",
+                                   "forall(q, len(b_int) - _i1, len(b_int), comp[q] == 255 and b_int[q] == 0)"],
+                        break_hints=["lemma_be_increment(comp, b_int, i, len(b_int))",
+                                     "lemma_be_complement(vt[0], comp, len(comp))"],
+                        exit_hints=["comp[0] == 255 - vt[0][0]"]),
+                2: dict(invariant=["int_value == be(b_int, 0, _i2)", "int_value >= 0"],
+                        body_hints=["be(b_int, 0, _i2)"])})
